@@ -301,6 +301,14 @@ class Script:
             return False
         return True
 
+    def is_minimally_encoded(self):
+        """Whether the script serializes from its commands (no bytes kept from a parse
+        of a truncated or non-minimally encoded script are in effect): only such a
+        script can be one of the standard templates"""
+        return not (
+            self.raw and getattr(self, "raw_commands", self.commands) == self.commands
+        )
+
     def is_p2pkh(self):
         """Returns whether the script follows the
         OP_DUP OP_HASH160 <20 byte hash> OP_EQUALVERIFY OP_CHECKSIG pattern."""
@@ -308,7 +316,8 @@ class Script:
         # OP_DUP (0x76), OP_HASH160 (0xa9), 20-byte hash, OP_EQUALVERIFY (0x88),
         # OP_CHECKSIG (0xac)
         return (
-            len(self.commands) == 5
+            self.is_minimally_encoded()
+            and len(self.commands) == 5
             and self.commands[0] == 0x76
             and self.commands[1] == 0xA9
             and isinstance(self.commands[2], bytes)
@@ -323,7 +332,8 @@ class Script:
         # there should be exactly 3 commands
         # OP_HASH160 (0xa9), 20-byte hash, OP_EQUAL (0x87)
         return (
-            len(self.commands) == 3
+            self.is_minimally_encoded()
+            and len(self.commands) == 3
             and self.commands[0] == 0xA9
             and isinstance(self.commands[1], bytes)
             and len(self.commands[1]) == 20
@@ -334,7 +344,8 @@ class Script:
         """Returns whether the script follows the
         OP_0 <20 byte hash> pattern."""
         return (
-            len(self.commands) == 2
+            self.is_minimally_encoded()
+            and len(self.commands) == 2
             and self.commands[0] == 0x00
             and isinstance(self.commands[1], bytes)
             and len(self.commands[1]) == 20
@@ -344,7 +355,8 @@ class Script:
         """Returns whether the script follows the
         OP_0 <32 byte hash> pattern."""
         return (
-            len(self.commands) == 2
+            self.is_minimally_encoded()
+            and len(self.commands) == 2
             and self.commands[0] == 0x00
             and isinstance(self.commands[1], bytes)
             and len(self.commands[1]) == 32
@@ -354,7 +366,8 @@ class Script:
         """Returns whether the script follows the
         OP_1 <32 byte hash> pattern."""
         return (
-            len(self.commands) == 2
+            self.is_minimally_encoded()
+            and len(self.commands) == 2
             and self.commands[0] == 0x51
             and isinstance(self.commands[1], bytes)
             and len(self.commands[1]) == 32
